@@ -90,7 +90,10 @@ func hC15(n, prefix, L, vlen int) {
 				}
 			}
 			vAssert(segsAfter == live, "C15.compact.segment-files=live-segments")
-			vAssert(segsAfter <= segsBefore-cr.CompactedSegments+1, "C15.compact.reclaimed")
+			// every compacted source is gone; promoted records may have opened new segments
+			// (at most one per promoted record)
+			vAssert(segsAfter <= segsBefore-cr.CompactedSegments+vMaxKeys, "C15.compact.reclaimed")
+			_ = segsBefore
 			vCheckDir(db, "C15.compact")
 			if cr.CompactedSegments > 0 {
 				vCover("C15.compacted")
